@@ -72,8 +72,11 @@ ScaleP(p, k) == <<k * p[1], k * p[2]>>
 SegDist2(a, b, c) == LET t == Dot(a, b, c)  L == Len2(a, b) IN
                      IF t <= 0 THEN <<Len2(a, c), 1>> ELSE IF t >= L THEN <<Len2(b, c), 1>>
                      ELSE <<Cross(a, b, c) * Cross(a, b, c), L>>
-(* nd[1]/nd[2] <= (k1/k2) * r2 / h ; the first test keeps the products inside 32 bits (k1/k2 < 2) *)
-LeqFracH(nd, k1, k2, r2, h) == IF h * nd[1] > 2 * r2 * nd[2] THEN FALSE ELSE k2 * h * nd[1] <= k1 * r2 * nd[2]
+(* nd[1]/nd[2] <= (k1/k2) * r2 / h  (k1/k2 < 2, k2 = 10000) *)
+LeqFracH(nd, k1, k2, r2, h) ==            \* h * nd[1] * k2 <= k1 * r2 * nd[2], evaluated without any product above 2^31:
+    LET B == r2 * nd[2] IN                \* A <= floor(B * k1 / k2) with B = qb * k2 + rb  (B < 2^30 / 1.03 for all geometry used here)
+    IF nd[1] > (2 * B) \div h THEN FALSE
+    ELSE h * nd[1] <= (B \div k2) * k1 + ((B % k2) * k1) \div k2
 LeqFrac(nd, k1, k2, r2)     == LeqFracH(nd, k1, k2, r2, 1)
 
 (* ------------------------------ rotations and rectangles --------------------------------------------- *)
